@@ -23,6 +23,7 @@ import (
 	"strings"
 	"sync"
 	"sync/atomic"
+	"syscall"
 	"time"
 
 	"github.com/uhppoted/uhppote-core/types"
@@ -146,7 +147,8 @@ type farm struct {
 	udp     map[string]*net.UDPConn     // controller -> endpoint
 	tcp     map[string]*net.TCPListener // controller -> listener
 	decoys  []*net.UDPConn
-	closedP map[string]int // controller -> a port nobody listens on (refused)
+	closedP map[string]int        // controller -> a port nobody listens on (refused)
+	holes   map[string]*blackhole // controller -> a TCP endpoint that never answers a SYN
 	serial  map[string]uint32
 	tag     map[string]uint32 // call -> tag
 	calls   map[string]*callScript
@@ -176,7 +178,7 @@ func (f *farm) rand(n int) int {
 
 func newFarm(sc *script, lt *layoutTables, tick time.Duration, seed int64, log *evlog) *farm {
 	f := &farm{sc: sc, lt: lt, tick: tick, rng: rand.New(rand.NewSource(seed)), log: log, udp: map[string]*net.UDPConn{}, tcp: map[string]*net.TCPListener{},
-		closedP: map[string]int{}, serial: map[string]uint32{}, tag: map[string]uint32{}, calls: map[string]*callScript{}}
+		closedP: map[string]int{}, holes: map[string]*blackhole{}, serial: map[string]uint32{}, tag: map[string]uint32{}, calls: map[string]*callScript{}}
 	f.bcast = listenUDP()
 	f.strange = listenUDP()
 	for i, c := range sc.calls {
@@ -202,7 +204,56 @@ func newFarm(sc *script, lt *layoutTables, tick time.Duration, seed int64, log *
 	return f
 }
 
+// blackhole: a TCP endpoint whose accept queue is full, so that the kernel drops further SYNs (listen backlog 0, two
+// connections parked unaccepted; net.ipv4.tcp_abort_on_overflow = 0): a connect to it gets no answer at all
+type blackhole struct {
+	fd     int
+	port   int
+	parked []net.Conn
+}
+
+func newBlackhole() *blackhole {
+	fd, err := syscall.Socket(syscall.AF_INET, syscall.SOCK_STREAM, 0)
+	if err != nil {
+		return nil
+	}
+	if err := syscall.Bind(fd, &syscall.SockaddrInet4{Port: 0, Addr: [4]byte{127, 0, 0, 1}}); err != nil {
+		syscall.Close(fd)
+		return nil
+	}
+	if err := syscall.Listen(fd, 0); err != nil {
+		syscall.Close(fd)
+		return nil
+	}
+	sa, err := syscall.Getsockname(fd)
+	if err != nil {
+		syscall.Close(fd)
+		return nil
+	}
+	h := &blackhole{fd: fd, port: sa.(*syscall.SockaddrInet4).Port}
+	addr := fmt.Sprintf("127.0.0.1:%d", h.port)
+	for i := 0; i < 4; i++ {
+		if c, err := net.DialTimeout("tcp4", addr, 60*time.Millisecond); err == nil {
+			h.parked = append(h.parked, c)
+		} else {
+			return h // saturated: this connect was left unanswered
+		}
+	}
+	h.close()
+	return nil
+}
+
+func (h *blackhole) close() {
+	for _, c := range h.parked {
+		c.Close()
+	}
+	syscall.Close(h.fd)
+}
+
 func (f *farm) close() {
+	for _, h := range f.holes {
+		h.close()
+	}
 	atomic.StoreInt32(&f.closing, 1)
 	f.bcast.Close()
 	f.strange.Close()
@@ -340,7 +391,7 @@ func (f *farm) onRequest(c *callScript, via, to string, src *net.UDPAddr, send f
 	}
 	acts := []act{}
 	// controllers do not answer function 0x96 (set-address)
-	if c.kind != "setaddr" && !(len(c.plan) == 1 && (c.plan[0].cls == "silence" || c.plan[0].cls == "reset" || c.plan[0].cls == "refused")) {
+	if c.kind != "setaddr" && !(len(c.plan) == 1 && (c.plan[0].cls == "silence" || c.plan[0].cls == "reset" || c.plan[0].cls == "refused" || c.plan[0].cls == "blackhole")) {
 		for i, p := range c.plan {
 			acts = append(acts, act{at: time.Duration(float64(f.tick)*(float64(p.delay)+0.45)) + time.Duration(i)*time.Millisecond, cls: p.cls, n: i + 1})
 		}
@@ -543,6 +594,13 @@ func runScenario(sc *script, lt *layoutTables, tick time.Duration, seed int64, f
 				var ap netip.AddrPort
 				refused := len(c.plan) == 1 && c.plan[0].cls == "refused"
 				switch {
+				case len(c.plan) == 1 && c.plan[0].cls == "blackhole" && path == "tcp":
+					h := newBlackhole()
+					if h == nil {
+						return M{"id": sc.id, "group": sc.group, "ev": []any{}, "expect": M{}, "hung": false, "skipped": "no blackhole endpoint", "jitter_us": 0, "tick_us": int64(tick / time.Microsecond)}
+					}
+					f.holes[c.ctl] = h
+					ap = netip.AddrPortFrom(netip.AddrFrom4([4]byte{127, 0, 0, 1}), uint16(h.port))
 				case refused:
 					ap = netip.AddrPortFrom(netip.AddrFrom4([4]byte{127, 0, 0, 1}), uint16(f.closedP[c.ctl]))
 				case path == "udp":
